@@ -156,7 +156,7 @@ static void explore(int maxdepth) {
     }
   }
   H->count("states", path_of.size()); H->count("transitions", transitions); H->count("traces_validated_against_impl", transitions); H->count("leak_checks", leakchecks);
-  H->note(vf::fmt("states=%zu transitions=%llu leak checks=%llu depth bound=%d deepest shortest history=%zu", path_of.size(), (unsigned long long)transitions, (unsigned long long)leakchecks, maxdepth, deepest));
+  H->note(vf::fmt("states=%zu transitions=%llu leak checks=%llu depth bound=%d deepest shortest history=%zu%s", path_of.size(), (unsigned long long)transitions, (unsigned long long)leakchecks, maxdepth, deepest, deepest < (size_t)maxdepth ? " (FIXPOINT: histories of every length are covered)" : ""));
   std::string sm = "{\"calls\":["; for (int k = 0; k < K_N; k++) sm += std::string(k ? "," : "") + "\"" + KN[k] + "\""; H->sample(sm + "],\"handles\":2}");
   Fix& F = fix(); remove(F.pathA.c_str()); remove(F.pathB.c_str()); remove(F.pathCorrupt.c_str());
 }
@@ -171,6 +171,7 @@ int main(int argc, char** argv) {
   h.meta("deadline_quick", "900"); h.meta("deadline_thorough", "3000");
   h.timeout_s = 2400;
   bool T = h.thorough;
-  h.add_space("bfs", 1, [T](uint64_t) { explore(T ? 4 : 3); });
+  int depth = T ? 64 : 4; if (getenv("C18_DEPTH")) depth = atoi(getenv("C18_DEPTH"));   // thorough: the abstract state graph is finite (729 states, longest shortest history 10), so the search runs to its fixpoint
+  h.add_space("bfs", 1, [depth](uint64_t) { explore(depth); });
   return h.main();
 }
